@@ -70,6 +70,17 @@ static void doFree(unsigned id)
     else if (k == 1) delete [] (char*) p;
     else cpputest_free(p);
 }
+static void doRealloc(const Stmt& s)
+{
+    void* old = gPtr[s.id];
+    if ((old && gKind[s.id] != 2) || gAllocs >= MAXALLOC) { fprintf(stderr, "harness: realloc of block id %x\n", s.id); exit(3); }
+    gNumOf[gAllocs++] = gDet->getCurrentAllocationNumber();
+    void* p;
+    if (gMode == 0) p = gDet->reallocMemory(getCurrentMallocAllocator(), (char*) old, s.size, "scr.cpp", 9, true);
+    else p = cpputest_realloc(old, s.size);
+    if (!p) { fprintf(stderr, "harness: reallocation failed\n"); exit(3); }
+    gPtr[s.id] = p; gKind[s.id] = 2;
+}
 static void execList(const std::vector<Stmt>& v, UtestShell* pluginTest = NULLPTR, TestResult* pluginResult = NULLPTR)
 {
     for (size_t i = 0; i < v.size(); i++) {
@@ -77,6 +88,7 @@ static void execList(const std::vector<Stmt>& v, UtestShell* pluginTest = NULLPT
         switch (s.kind) {
         case 'a': doAlloc(s); break;
         case 'f': doFree(s.id); break;
+        case 'r': doRealloc(s); break;
         case 'x':
             if (pluginTest) pluginResult->addFailure(TestFailure(pluginTest, "plg.cpp", 3, "VPLUGIN"));   // as MockSupportPlugin does
             else FAIL("VOWN");
@@ -166,6 +178,7 @@ static void readStmts(Toks& t, std::vector<Stmt>& v)
         Stmt s; s.kind = t.sym()[0]; s.id = 0; s.size = 0; s.k = 0; s.n = 0;
         if (s.kind == 'a') { s.id = (unsigned) t.u(); s.size = (size_t) t.u(); s.k = (unsigned) t.u(); }
         else if (s.kind == 'f') s.id = (unsigned) t.u();
+        else if (s.kind == 'r') { s.id = (unsigned) t.u(); s.size = (size_t) t.u(); }
         else if (s.kind == 'e') s.n = (size_t) t.u();
         if (s.id >= MAXID || s.k > 2 || s.size > 4096) { fprintf(stderr, "harness: statement out of range\n"); exit(3); }
         v.push_back(s);
